@@ -10,11 +10,14 @@ def gen(rng: random.Random, tier: str):
     for _ in range(reps):
         for nj in jobs:
             yield {"kind": "batch", "n_jobs": nj, "form": rng.choice(["list", "dict", "collection", "frame"]), "n_keys": rng.choice([0, 1, 3, 6, 9]), "dup": rng.random() < 0.3,
-                   "op": rng.choice(["recommend", "predict", "score"]), "fail_at": rng.choice([None, None, 0, 2]), "seed": rng.randrange(10**6), "pipeline": rng.choice(["table", "iknn"])}
+                   "op": rng.choice(["recommend", "predict", "score"]), "fail_at": rng.choice([None, None, 0, 2]), "seed": rng.randrange(10**6), "pipeline": rng.choice(["table", "iknn"]),
+                   "n": rng.choice([3, 3, None, 0, 1, 50])}
             yield {"kind": "invoker", "n_jobs": nj, "tasks": rng.choice([[], [3], list(range(7)), [5, 5, 1, 1, 9], list(range(20))]), "fail_at": rng.choice([None, None, 1]), "seed": rng.randrange(10**6)}
     # directed: a failing task / key with a real process pool, and runners that carry several invocations in either order
     top = max(jobs)
     yield {"kind": "invoker", "n_jobs": top, "tasks": list(range(7)), "fail_at": rng.choice([0, 3, 6]), "seed": rng.randrange(10**6)}
+    for n_ in (0, None):          # directed: a zero-length request and the pipeline's own default length
+        yield {"kind": "batch", "n_jobs": rng.choice(jobs), "form": "list", "n_keys": 3, "dup": False, "op": "recommend", "fail_at": None, "seed": rng.randrange(10**6), "pipeline": "table", "n": n_}
     yield {"kind": "batch", "n_jobs": top, "form": "dict", "n_keys": 6, "dup": False, "op": "predict", "fail_at": rng.choice([0, 2, 5]), "seed": rng.randrange(10**6), "pipeline": "table"}
     for nj in sorted(set([1, top])):
         for order in (["predict", "recommend"], ["recommend", "predict"], ["score", "recommend", "predict"]):
@@ -32,7 +35,8 @@ def run(case: dict, lean: Lean) -> Outcome:
         from lkv_payload import work, digest, Boom
         g = np.random.default_rng(case["seed"])
         model = dict(arr=g.standard_normal(50), ints=np.arange(7, dtype="i4"), dense=torch.from_numpy(g.standard_normal((6, 4))),
-                     csr=torch.from_numpy(g.standard_normal((5, 5))).to_sparse_csr(), coo=torch.from_numpy(np.where(g.random((4, 6)) < 0.4, 1.5, 0.0)).to_sparse_coo(), tag="m")
+                     csr=torch.from_numpy(g.standard_normal((5, 5))).to_sparse_csr(), coo=torch.from_numpy(np.where(g.random((4, 6)) < 0.4, 1.5, 0.0)).to_sparse_coo(), tag="m",
+                     empty=np.zeros(0), empty2=np.zeros((0, 3), dtype="f4"), empty_t=torch.zeros(0, dtype=torch.float64))          # models legitimately hold empty arrays
         tasks = list(case["tasks"])
         if case["fail_at"] is not None and len(tasks) > case["fail_at"]: tasks[case["fail_at"]] = -1; classes.append("failing task")
         want_fail = any(t < 0 for t in tasks)
@@ -113,18 +117,19 @@ def run(case: dict, lean: Lean) -> Outcome:
            else ItemListCollection.from_dict({u: test[u] for u in test}, key="user_id") if form == "collection"
            else pd.DataFrame([(u, int(i)) for u in test for i in test[u].ids()], columns=["user_id", "item_id"]))
     keys_in = list(reqs) if form == "list" else (list(test) if form in ("dict", "collection") else sorted(test))
-    classes += ["form:" + form, "op:" + op]
+    n_req = case.get("n", 3)
+    classes += ["form:" + form, "op:" + op] + ([f"recommend n={n_req}"] if op == "recommend" else [])
     if not reqs: classes.append("no keys")
     if fail_user is not None: classes.append("failing key")
     try:
         seq = {}
         for u in dict.fromkeys(keys_in):
-            seq[u] = _canon(operations.recommend(pipe, u, 3) if op == "recommend" else operations.predict(pipe, u, test[u]) if op == "predict" else operations.score(pipe, u, test[u]))
+            seq[u] = _canon(operations.recommend(pipe, u, n_req) if op == "recommend" else operations.predict(pipe, u, test[u]) if op == "predict" else operations.score(pipe, u, test[u]))
         seq_failed = False
     except ValueError:
         seq_failed = True
     try:
-        out = (batch.recommend(pipe, arg, 3, n_jobs=nj) if op == "recommend" else batch.predict(pipe, arg, n_jobs=nj) if op == "predict" else batch.score(pipe, arg, n_jobs=nj))
+        out = (batch.recommend(pipe, arg, n_req, n_jobs=nj) if op == "recommend" else batch.predict(pipe, arg, n_jobs=nj) if op == "predict" else batch.score(pipe, arg, n_jobs=nj))
         if seq_failed: failed.append("the single-query operation fails for a key but the batch run reports nothing")
         else:
             got_keys = [int(k.user_id) for k in out.keys()]
@@ -147,5 +152,5 @@ def run(case: dict, lean: Lean) -> Outcome:
 
 SPEC = CheckSpec(
     pid="C12", theorems=[f"LK.Batch.C12_Batch_{n}" for n in ["batch_eq_sequential", "failure_surfaces", "sequential_keys", "fanout_eq_map"]], correspondence_ops=["c12.batch"],
-    nontrivial_rule="distinct cases reaching ≥1 of: batch / invoker × worker counts, each key form and operation, no keys / tasks, duplicate keys, failing key / task, more tasks than workers",
+    nontrivial_rule="distinct cases reaching ≥1 of: batch / invoker × worker counts, each key form and operation, no keys / tasks, duplicate keys, failing key / task, more tasks than workers, requested lengths None / 0 / 1 / 3 / 50",
     budgets={"quick": 12, "thorough": 170}, gen=gen, run=run, shrink=None)
